@@ -87,6 +87,10 @@ def run(ctx):
     vlib.mc(ctx, "WarmUp.tla", "MCWarmUp.cfg", workers=2, timeout=300)
     r = vlib.tlc("WarmUp.tla", "MCWarmUpFirst.cfg", workers=1, timeout=300, metadir=os.path.join(ctx.out, "mc-bad"))
     ctx.negative_control(r.violated == "WarmBeforeRead", "model: a warm-up list decided by each pack's first blob must violate WarmBeforeRead")
+    # the configuration is the one file overwritten in place: cold first, then hot; new handles read the hot copy
+    vlib.mc(ctx, "HotConfig.tla", "MCHotConfig.cfg", workers=1, timeout=120)
+    r = vlib.tlc("HotConfig.tla", "MCHotConfigKeep.cfg", workers=1, timeout=120, metadir=os.path.join(ctx.out, "mc-bad"))
+    ctx.negative_control(r.violated == "SeenIsCurrent", "model: a hot configuration that is never overwritten must violate SeenIsCurrent")
     if not q:
         # unbounded in the number of operations: HotComplete + the promise of the pending half-operation is inductive (Apalache)
         ok = vlib.apalache_inductive(ctx, "HotColdInd", subst={"WriteHotFirst \\in BOOLEAN /\\ RemoveColdFirst \\in BOOLEAN": "WriteHotFirst = TRUE /\\ RemoveColdFirst = TRUE"})
